@@ -765,7 +765,7 @@ fn loop2_body(kit: &mut Kit, rng: &mut Rng, ctx: Vec<Bind>, mut pre: Vec<Pre>, e
     let shape = match rng.below(8) {
         0 => Shape::Box(rng.below(9)),
         1 => Shape::Box(4 + rng.below(5)),
-        2 => Shape::Opt(true),
+        2 | 6 => Shape::Opt(true),
         3 => Shape::Clo,
         4 => Shape::Box(1 + rng.below(3)),
         5 => Shape::Opt(rng.pct(50)),
@@ -834,7 +834,9 @@ fn switch_consume(kit: &mut Kit, rng: &mut Rng, rest: Vec<Bind>, pre: Vec<Pre>, 
 
 pub fn make_loop2(rng: &mut Rng, backends: &[Backend]) -> Scenario {
     let mut kit = Kit { next: 5000, printless: false, obs_budget: 48 };
-    let rv = backends.contains(&Backend::Rv);
+    // about a third of the scenarios fit the RISC-V register file; the others slide the structures
+    // across the x86-64 and AArch64 register/spill boundaries (RISC-V then reports capacity)
+    let rv = backends.contains(&Backend::Rv) && rng.pct(35);
     // p padding variables to the left slide the structures across the register/spill boundary
     let p = if rv { rng.below(4) } else { [0, 1, 3, 5, 6, 7, 9, 12, 13, 15][rng.below(10)] };
     let arg = ext(kit.fresh("n"));
